@@ -37,6 +37,7 @@ type Prog struct {
 	RepoDir   string
 	immutG    map[*ssa.Global]bool
 	srcCache  map[string][]string
+	overlay   map[string][]byte
 }
 
 // Load loads /repo (with overlay, if any) and all contract/stub files.
@@ -67,7 +68,7 @@ func Load(repoDir string, stubDir string, overlay map[string][]byte) (*Prog, err
 	prog.Build()
 	p := &Prog{SSA: prog, Pkgs: pkgs, ByPath: map[string]*packages.Package{}, TypesPkgs: map[string]*types.Package{}, ByName: map[string][]*types.Package{},
 		Funcs: map[string]*ssa.Function{}, Contracts: map[string]*spec.FuncContract{}, Pures: map[string]*spec.PureFunc{}, Lemmas: map[string]*spec.Lemma{},
-		SpecSorts: map[string]bool{}, FileOfPkg: map[string]*spec.File{}, RepoDir: repoDir, immutG: map[*ssa.Global]bool{}, srcCache: map[string][]string{}}
+		SpecSorts: map[string]bool{}, FileOfPkg: map[string]*spec.File{}, RepoDir: repoDir, immutG: map[*ssa.Global]bool{}, srcCache: map[string][]string{}, overlay: overlay}
 	if len(pkgs) > 0 {
 		p.Fset = pkgs[0].Fset
 	}
@@ -356,8 +357,9 @@ func (p *Prog) SrcLine(pos token.Pos) string {
 	ps := p.Fset.Position(pos)
 	lines, ok := p.srcCache[ps.Filename]
 	if !ok {
-		b, err := os.ReadFile(ps.Filename)
-		if err == nil {
+		if ov, ok := p.overlay[ps.Filename]; ok {
+			lines = strings.Split(string(ov), "\n")
+		} else if b, err := os.ReadFile(ps.Filename); err == nil {
 			lines = strings.Split(string(b), "\n")
 		}
 		p.srcCache[ps.Filename] = lines
@@ -376,6 +378,11 @@ func (p *Prog) ImmutableGlobal(g *ssa.Global) bool {
 	}
 	ok := true
 	for _, fn := range p.Funcs {
+		if fn.Pkg == nil || !strings.HasPrefix(fn.Pkg.Pkg.Path(), ModulePath) {
+			if g.Pkg != nil && strings.HasPrefix(g.Pkg.Pkg.Path(), ModulePath) {
+				continue // dependencies cannot name go-ucan's globals
+			}
+		}
 		if fn.Pkg != g.Pkg && fn.Pkg != nil {
 			// unexported globals cannot be written from other packages; exported ones can
 			if !g.Object().Exported() {
